@@ -110,6 +110,19 @@ func randomChain(rng *rand.Rand, v6 bool) []PlugConf {
 	return chain
 }
 
+func chainHasArg(chain []PlugConf, name, arg string) bool {
+	for _, p := range chain {
+		if p.Name == name {
+			for _, a := range p.Args {
+				if a == arg {
+					return true
+				}
+			}
+		}
+	}
+	return false
+}
+
 func chainHas(chain []PlugConf, name string) bool {
 	for _, p := range chain {
 		if p.Name == name {
@@ -172,8 +185,25 @@ func (hostileEngine) Run(ctx *fw.Ctx, cs any) {
 	// a few stateful clients whose scripts are interleaved with the hostile traffic
 	v4clients := [][]byte{{2, 0, 0, 0, 0, 1}, {2, 0, 0, 0, 0, 9}, {2, 0, 0, 0, 0, 10}, {1, 2, 3, 4, 5}, {}, {9, 9, 9, 9, 9, 9, 9, 9, 9, 9, 9, 9, 9, 9, 9, 9}}
 	var last4, last6 []byte
+	fileAuto4 := job.HasV4 && chainHasArg(job.V4, "file", "autorefresh")
+	fileAuto6 := job.HasV6 && chainHasArg(job.V6, "file", "autorefresh")
 	for i := 0; i < c.NData; i++ {
 		xid++
+		// while the history runs, a refreshing lease file is rewritten now and then (well-formed or not)
+		if (fileAuto4 || fileAuto6) && rng.Intn(60) == 0 {
+			name, content := "leases4.txt", "02:00:00:00:00:01 10.77.3.9\n02:00:00:00:00:0a 10.77.3.10\n"
+			if !fileAuto4 || (fileAuto6 && rng.Intn(2) == 0) {
+				name, content = "leases6.txt", "02:00:00:00:00:01 2001:db8:3::9\n"
+			}
+			switch rng.Intn(4) {
+			case 0:
+				content = "garbage line\n" + content
+			case 1:
+				content = ""
+			}
+			job.Reqs = append(job.Reqs, ChainReq{Write: &FileWrite{Name: name, Content: content, Create: rng.Intn(2) == 0}, SleepMs: 2})
+			ms = append(ms, meta{kind: "file-rewrite"})
+		}
 		v6 := job.HasV6 && (!job.HasV4 || rng.Intn(2) == 0)
 		if v6 {
 			var d []byte
